@@ -86,3 +86,25 @@ Example C01_len_boundaries :
   map (fun n => header fc_binary n) [255; 256; 65535; 65536] =
   [[33; 255]; [34; 1; 0]; [34; 255; 255]; [35; 1; 0; 0]].
 Proof. reflexivity. Qed.
+
+(** Trees that mix constructed items with items returned by Decode (which re-emit their retained
+    wire bytes, canonical or not): the bytes are a receiver-side E5 encoding of the logical value,
+    their length is the reported length, decoding returns the logical value; and whatever Decode
+    returns is such a tree, so the statement nests. *)
+From GoSecs Require Import Secs2.Raw Secs2.RawProofs.
+Theorem C01_mixed_exact : forall c, wf_c c = true -> E5 false (encode_c c) (erase c).
+Proof. exact encode_c_E5. Qed.
+Theorem C01_mixed_len : forall c, wf_c c = true -> zlen (encode_c c) = encoded_len_c c.
+Proof. exact encode_c_length. Qed.
+Theorem C01_mixed_roundtrip : forall c rest, wf_c c = true -> depth (erase c) <= max_depth ->
+  decode (encode_c c ++ rest) = Ok (erase c, rest).
+Proof. exact roundtrip_c. Qed.
+Theorem C01_decoded_wf : forall bs c, bytes_ok bs -> bs <> [] -> decode_c bs = Some c -> wf_c c = true.
+Proof. exact decode_c_wf. Qed.
+Print Assumptions C01_mixed_roundtrip.
+Print Assumptions C01_decoded_wf.
+Example C01_mixed_nonvacuous :   (* a decoded non-canonical U1 next to a constructed one *)
+  let c := CList [CDecoded [167; 0; 0; 1; 5] (IUint W1 [5]); CPlain (IUint W1 [5])] in
+  wf_c c = true /\ encode_c c = [1; 2; 167; 0; 0; 1; 5; 165; 1; 5] /\
+  decode (encode_c c) = Ok (IList [IUint W1 [5]; IUint W1 [5]], []).
+Proof. vm_compute. repeat split. Qed.
